@@ -17,12 +17,12 @@ TECHNIQUE = 'matrix enumeration with a dtype/length monitor on every array retur
 RULE = ('cells = raw type x scale kind x mode x raw_timestamps x endian x (non-empty | zero-length); a cell is non-trivial when at '
         'least one read succeeded; distinct = the cell tuple')
 ASSUMPTIONS = ['byte order is not part of dtype equality', 'raw timestamp dtypes are compared as sets of (field, kind, size)']
-REQUIRED = ['reads_ok', 'dtype_checked', 'empty_results_checked', 'len_checked']
+REQUIRED = ['memmap_files', 'reads_ok', 'dtype_checked', 'empty_results_checked', 'len_checked']
 EXHAUSTIVE = {'quick': False, 'thorough': False}
 
 KINDS = ['none', 'Linear', 'Polynomial', 'Table', 'Add', 'Subtract', 'RTD', 'Thermistor', 'Thermocouple0', 'Thermocouple1',
          'Strain', 'AdvancedAPI', 'Linear-identity', 'Linear-zero', 'Polynomial-identity', 'Polynomial-empty', 'Polynomial-constant',
-         'Table-identity', 'Linear-of-Linear', 'Add-of-Linear']
+         'Table-identity', 'Linear-of-Linear', 'Add-of-Linear', 'AdvancedAPI-of-Linear', 'AdvancedAPI-of-AdvancedAPI']
 
 
 def scale_for(kind):
@@ -44,6 +44,10 @@ def scale_for(kind):
         return [dict(kind='Table', scaled=[0.0, 10.0], pre=[0.0, 10.0], src=SG.RAW)]
     if kind == 'Linear-of-Linear':
         return [dict(kind='Linear', slope=1.0, intercept=0.0, src=SG.RAW), dict(kind='Linear', slope=1.0, intercept=0.0, src=0)]
+    if kind == 'AdvancedAPI-of-Linear':
+        return [dict(kind='Linear', slope=2.0, intercept=1.0, src=SG.RAW), dict(kind='AdvancedAPI', src=0)]
+    if kind == 'AdvancedAPI-of-AdvancedAPI':
+        return [dict(kind='AdvancedAPI', src=SG.RAW), dict(kind='AdvancedAPI', src=0)]
     if kind == 'Add-of-Linear':
         return [dict(kind='Linear', slope=1.0, intercept=0.0, src=SG.RAW), dict(kind='Add', left=0, right=SG.RAW)]
     if kind == 'Polynomial':
@@ -137,10 +141,14 @@ def run_case(case, ctx):
     segs, rng = build(case)
     blob, _, _ = M.encode_file(segs)
     for raw_ts in ((False, True) if (case['k'] == 'cell' and case['t'] == 'ts') else (False,)):
-        for mode in ('eager', 'lazy', 'metadata'):
+        for mode in ('eager', 'lazy', 'metadata', 'eager-memmap', 'lazy-memmap'):
             cellbase = (case.get('t', 'graph'), case.get('scale', 'graph'), mode, raw_ts, case.get('e', '?'))
             try:
-                tf = {'eager': TdmsFile.read, 'lazy': TdmsFile.open, 'metadata': TdmsFile.read_metadata}[mode](io.BytesIO(blob), raw_timestamps=raw_ts)
+                if mode.endswith('memmap'):
+                    tf = {'eager-memmap': TdmsFile.read, 'lazy-memmap': TdmsFile.open}[mode](io.BytesIO(blob), raw_timestamps=raw_ts, memmap_dir=ctx.tmpdir)
+                    ctx.count('memmap_files')
+                else:
+                    tf = {'eager': TdmsFile.read, 'lazy': TdmsFile.open, 'metadata': TdmsFile.read_metadata}[mode](io.BytesIO(blob), raw_timestamps=raw_ts)
             except Exception as ex:
                 ctx.violation('open-raises/%s' % util.exc_key(ex), {'cell': cellbase})
                 continue
@@ -174,7 +182,7 @@ def run_case(case, ctx):
                         continue
                     ok += 1
                     judge(ctx, ch, what, got, cell, want_len)
-                if mode == 'lazy':
+                if mode.startswith('lazy'):
                     try:
                         chunks = list(ch.data_chunks())
                         total, raised = 0, False
@@ -216,10 +224,13 @@ def run_case(case, ctx):
 
 def shard_setup(ctx):
     contracts.install()
+    ctx.tmp = util.TempDir('c14')
+    ctx.tmpdir = ctx.tmp.__enter__()
 
 
 def shard_teardown(ctx):
     contracts.drain(ctx)
+    ctx.tmp.__exit__()
 
 
 def finalize(merged, tier):
